@@ -38,6 +38,10 @@ var ends = []endKind{
 	{"ctx-like-error@sink", []hn.Script{P, P, hn.ErrCtx}, 0, 0},
 }
 
+// further ends, used in the explicit scenarios below: an error returned together with an event is an
+// error (a warning, no complete), at a sink and before it
+var EV = hn.ErrEv
+
 func scenarios(tier string) []*hn.Scenario {
 	var out []*hn.Scenario
 	thorough := tier == "thorough"
@@ -133,6 +137,35 @@ func scenarios(tier string) []*hn.Scenario {
 				sc.Cancel, sc.Thr, sc.ThrSinks, sc.Bound = cancel, pr[0], pr[1], 2
 				out = append(out, sc)
 			}
+		}
+	}
+	// who counts as a sink is decided by the node's type, and only NodeTypeSink is one: a formatter-filter or
+	// a node of an unknown type that filters the event is a complete, not a complete sink; a node that returns
+	// an event together with an error has failed
+	type ex struct {
+		name string
+		typ  el.NodeType
+		scr  hn.Script
+	}
+	for _, x := range []ex{{"formatter-filter drops", el.NodeTypeFormatterFilter, hn.Drop}, {"unknown-type(7) drops", el.NodeType(7), hn.Drop},
+		{"formatter err+event", el.NodeTypeFormatter, EV}, {"filter err+event", el.NodeTypeFilter, EV}} {
+		for cancel := 0; cancel <= 1; cancel++ {
+			for _, pr := range [][2]int{{-1, -1}, {1, 0}, {1, 1}, {0, 1}} {
+				b := hn.NewBuilder(fmt.Sprintf("%s cancel=%d thr=%d/%d", x.name, cancel, pr[0], pr[1])).
+					Node("x", "x", x.typ, x.scr).Node("m", "m", el.NodeTypeFormatter, P).Node("s", "s", el.NodeTypeSink, D).
+					Pipe("t1", "p0", "x", "m", "s").Std("t1", "p1", P, D)
+				sc := b.Scenario()
+				sc.Cancel, sc.Thr, sc.ThrSinks, sc.Bound = cancel, pr[0], pr[1], 2
+				out = append(out, sc)
+			}
+		}
+	}
+	for cancel := 0; cancel <= 1; cancel++ {
+		for _, pr := range [][2]int{{-1, -1}, {1, 1}} {
+			b := hn.NewBuilder(fmt.Sprintf("sink err+event cancel=%d thr=%d/%d", cancel, pr[0], pr[1])).Std("t1", "p0", P, P, EV)
+			sc := b.Scenario()
+			sc.Cancel, sc.Thr, sc.ThrSinks, sc.Bound = cancel, pr[0], pr[1], 2
+			out = append(out, sc)
 		}
 	}
 	// shared formatter and sink ids between the pipelines (same id reported twice)
